@@ -14,8 +14,8 @@ L = "lexer/lexer.go"
 
 # ---- C01
 v("c01-mul-at-sum", ["C01"], [(P, "token.MUL:      PRODUCT,", "token.MUL:      SUM,")], rule="R-PRATT")
-v("c01-right-operand-constant-sum", ["C01"], [(P, "exp.Right = p.parseExpression(precedence)", "exp.Right = p.parseExpression(SUM)")], rule="R-PRATT")
-v("c01-right-operand-lowest", ["C01"], [(P, "exp.Right = p.parseExpression(precedence)", "exp.Right = p.parseExpression(LOWEST)")], rule="R-PRATT")
+v("c01-right-operand-constant-sum", ["C01"], [(P, "exp.Right = p.parseExpression(precedence)", "exp.Right = p.parseExpression(SUM)"), (P, "\tprecedence := p.curPrecedence()\n\n\tp.nextToken() // skip operator", "\tp.nextToken() // skip operator")], rule="R-PRATT")
+v("c01-right-operand-lowest", ["C01"], [(P, "exp.Right = p.parseExpression(precedence)", "exp.Right = p.parseExpression(LOWEST)"), (P, "\tprecedence := p.curPrecedence()\n\n\tp.nextToken() // skip operator", "\tp.nextToken() // skip operator")], rule="R-PRATT")
 v("c01-loop-lte", ["C01"], [(P, "precedence < p.peekPrecedence()", "precedence <= p.peekPrecedence()")], rule="R-PRATT")
 v("c01-ternary-else-at-ternary", ["C01"], [(P, "exp.Alternative = p.parseExpression(LOWEST)", "exp.Alternative = p.parseExpression(TERNARY)")], rule="R-PRATT")
 v("c01-assign-at-sum", ["C01"], [(P, "stmt.Value = p.parseExpression(LOWEST)", "stmt.Value = p.parseExpression(SUM)")], rule="R-PRATT-SITES")
@@ -89,6 +89,66 @@ v("c15-data-map-written", ["C15", "C16", "C12"], [("template.go", "\tprog, ok :=
 v("c15-plain-bool-flag-again", ["C15"], [("textwire.go", "var usesTemplates atomic.Bool", "var usesTemplates atomic.Bool\nvar lastWasString bool"), ("textwire.go", "\tusesTemplates.Store(false)\n\n\tprog, errs := parseStr(inp)", "\tusesTemplates.Store(false)\n\tlastWasString = true\n\n\tprog, errs := parseStr(inp)")], rule="R-SHARED")
 v("c16-history-flag-read-on-render", ["C16"], [("template.go", "absPath, err := templateFullPath(filename)", "absPath, err := getFullPath(filename, true)"), ("textwire.go", "var usesTemplates atomic.Bool", "var usesTemplates bool"), ("textwire.go", "\tusesTemplates.Store(false)\n\n\tprog, errs := parseStr(inp)", "\tusesTemplates = false\n\n\tprog, errs := parseStr(inp)"), ("textwire.go", "\tusesTemplates.Store(false)\n\n\tcontent, err := fileContent(absPath)", "\tusesTemplates = false\n\n\tcontent, err := fileContent(absPath)"), ("textwire.go", "\tusesTemplates.Store(true)", "\tusesTemplates = true"), ("files.go", "if usesTemplates.Load() {", "if usesTemplates {"), ("textwire.go", "\t\"strings\"\n\t\"sync/atomic\"\n", "\t\"strings\"\n")], rule="R-SHARED")
 v("c15-benign-local-buffer", ["C15", "C16"], [("template.go", "\treturn evaluated.String(), nil\n}\n\nfunc (t *Template) Response", "\tout := []string{evaluated.String()}\n\tout[0] += \"\"\n\n\treturn out[0], nil\n}\n\nfunc (t *Template) Response")], expect="silent")
+
+# ---- C03
+v("c03-iter-off-by-one", ["C03"], [(E, '"iter":  &object.Int{Value: int64(i + 1)},', '"iter":  &object.Int{Value: int64(i)},')], rule="R-LOOP")
+v("c03-last-off-by-one", ["C03"], [(E, "nativeBoolToBooleanObject(i == elemsLen-1)", "nativeBoolToBooleanObject(i == elemsLen)")], rule="R-LOOP")
+v("c03-each-break-test-removed", ["C03"], [(E, "\t\tblocks.WriteString(block.String())\n\n\t\tif hasBreakStmt(block) {\n\t\t\tbreak\n\t\t}\n\n\t\tif hasContinueStmt(block) {\n\t\t\tcontinue\n\t\t}\n\t}", "\t\tblocks.WriteString(block.String())\n\t}")], rule="R-LOOP")
+v("c03-output-after-break-test", ["C03"], [(E, "\t\tblocks.WriteString(block.String())\n\n\t\tif hasBreakStmt(block) {\n\t\t\tbreak\n\t\t}\n\n\t\tif hasContinueStmt(block) {", "\t\tif hasBreakStmt(block) {\n\t\t\tbreak\n\t\t}\n\n\t\tblocks.WriteString(block.String())\n\n\t\tif hasContinueStmt(block) {")], rule="R-LOOP")
+v("c03-else-when-one-element", ["C03"], [(E, "if elemsLen == 0 && node.Alternative != nil {", "if elemsLen <= 1 && node.Alternative != nil {")], rule="R-LOOP")
+v("c03-loop-body-in-outer-scope", ["C03", "C04"], [(E, "\t\tblock := e.Eval(node.Block, newEnv)\n\n\t\tif isError(block) {\n\t\t\treturn block\n\t\t}\n\n\t\tblocks.WriteString(block.String())\n\n\t\tif hasBreakStmt(block) {\n\t\t\tbreak\n\t\t}\n\n\t\tif hasContinueStmt(block) {", "\t\tblock := e.Eval(node.Block, env)\n\n\t\tif isError(block) {\n\t\t\treturn block\n\t\t}\n\n\t\tblocks.WriteString(block.String())\n\n\t\tif hasBreakStmt(block) {\n\t\t\tbreak\n\t\t}\n\n\t\tif hasContinueStmt(block) {")], rule="R-SCOPE")
+v("c03-control-not-recursive", ["C03"], [("evaluator/utils.go", "\tfor _, elem := range block.Elements {\n\t\tif hasControlStmt(elem, controlType) {\n\t\t\treturn true\n\t\t}\n\t}", "\tfor _, elem := range block.Elements {\n\t\tif elem.Is(controlType) {\n\t\t\treturn true\n\t\t}\n\t}")], rule="R-LOOP")
+v("c03-benign-last-rewritten", ["C03"], [(E, "nativeBoolToBooleanObject(i == elemsLen-1)", "nativeBoolToBooleanObject(i+1 == elemsLen)")], expect="silent")
+
+# ---- C04
+v("c04-reserved-name-test-removed", ["C04"], [("object/env.go", "\tif key == \"loop\" {\n\t\treturn errors.New(fail.ErrLoopVariableIsReserved)\n\t}\n\n", "")], rule="R-SCOPE")
+v("c04-set-writes-outer", ["C04"], [("object/env.go", "\te.store[key] = val\n\n\treturn nil", "\tif _, here := e.store[key]; !here && e.outer != nil {\n\t\tif _, up := e.outer.store[key]; up {\n\t\t\te.outer.store[key] = val\n\t\t\treturn nil\n\t\t}\n\t}\n\n\te.store[key] = val\n\n\treturn nil")], rule="R-SCOPE")
+v("c04-if-branch-in-outer-scope", ["C04"], [(E, "\tif isTruthy(condition) {\n\t\treturn e.Eval(node.Consequence, newEnv)\n\t}", "\tif isTruthy(condition) {\n\t\treturn e.Eval(node.Consequence, env)\n\t}")], rule="R-SCOPE")
+
+# ---- C05
+v("c05-rbraces-in-text-mode", ["C05"], [(L, "if !l.isHTML && l.char == '}' && l.peekChar() == '}' && l.countCurlyBraces == 0 {", "if l.char == '}' && l.peekChar() == '}' && l.countCurlyBraces == 0 {")], rule="R-LEXMODE")
+v("c05-cr-not-written", ["C05"], [(L, "\t\tout.WriteByte(l.char)\n\t\tl.readChar()", "\t\tif l.char != '\\r' {\n\t\t\tout.WriteByte(l.char)\n\t\t}\n\t\tl.readChar()")], rule="R-TEXT")
+v("c05-escape-removes-two-bytes", ["C05"], [(L, "out.Truncate(out.Len() - 1)", "out.Truncate(max(out.Len()-2, 0))")], rule="R-TEXT")
+v("c05-html-literal-trimmed", ["C05"], [("ast/html_stmt.go", "return hs.Token.Literal", "return strings.TrimRight(hs.Token.Literal, \"\\r\")"), ("ast/html_stmt.go", "import \"github.com/textwire/textwire/v2/token\"", "import (\n\t\"strings\"\n\n\t\"github.com/textwire/textwire/v2/token\"\n)")], rule="R-TEXT")
+
+# ---- C06
+v("c06-link-any-insert", ["C06"], [("ast/program.go", "\t\tinsert, hasInsert := inserts[reserve.Name.Value]\n\n\t\tif hasInsert {\n\t\t\treserve.Insert = insert\n\t\t}", "\t\tfor _, insert := range inserts {\n\t\t\tif reserve.Insert == nil {\n\t\t\t\treserve.Insert = insert\n\t\t\t}\n\t\t}")], rule="R-LAYOUT")
+v("c06-undefined-insert-ignored", ["C06"], [("ast/program.go", "\tif err := p.checkUndefinedInsert(inserts); err != nil {\n\t\treturn err\n\t}\n", "\tp.checkUndefinedInsert(inserts)\n")], rule="R-LAYOUT")
+v("c06-layout-appends-use", ["C06"], [("ast/program.go", "p.Statements = []Statement{p.UseStmt}", "p.Statements = append(p.Statements, p.UseStmt)")], rule="R-LAYOUT")
+v("c06-alias-anywhere", ["C06"], [(P, "\tif name[0] == '~' {\n\t\tname = shortenTo + \"/\" + name[1:]\n\t}", "\tname = strings.Replace(name, \"~\", shortenTo+\"/\", 1)"), (P, "import (\n\t\"strconv\"\n", "import (\n\t\"strconv\"\n\t\"strings\"\n")], rule="R-LAYOUT")
+
+# ---- C07 / C10 / C11 / C12
+v("c07-share-program-again", ["C07"], [("ast/program.go", "\t\tif comp.Name.Value != name || comp.Block != nil {\n\t\t\tcontinue\n\t\t}", "\t\tif comp.Name.Value != name {\n\t\t\tcontinue\n\t\t}"), ("ast/program.go", "\t\tcomp.Block = prog\n\n\t\tbreak\n\t}", "\t\tcomp.Block = prog\n\t}")], rule="R-OWN")
+v("c10-escape-removed", ["C10"], [(E, "str := html.EscapeString(node.Value)", "str := node.Value\n\t_ = html.EscapeString")], rule="R-ESCAPE")
+v("c10-lt-restored", ["C10"], [(E, "\tstr = strings.ReplaceAll(str, \"&#39;\", `'`)\n", "\tstr = strings.ReplaceAll(str, \"&#39;\", `'`)\n\tstr = strings.ReplaceAll(str, \"&lt;\", `<`)\n")], rule="R-ESCAPE")
+v("c10-raw-identity", ["C10"], [("evaluator/str_func.go", "return &object.Str{Value: html.UnescapeString(val)}, nil", "_ = html.UnescapeString\n\treturn &object.Str{Value: val}, nil")], rule="R-ESCAPE")
+v("c10-unescape-in-concat", ["C10"], [(E, "return &object.Str{Value: leftVal + rightVal}", "return &object.Str{Value: html.UnescapeString(leftVal) + rightVal}")], rule="R-ESCAPE")
+v("c11-reverse-in-place", ["C11"], [("evaluator/array_func.go", "\treversed := make([]object.Object, length)\n\n\tfor i, el := range elems {\n\t\treversed[length-i-1] = el\n\t}\n\n\treturn &object.Array{Elements: reversed}, nil", "\tfor i := 0; i < length/2; i++ {\n\t\telems[i], elems[length-1-i] = elems[length-1-i], elems[i]\n\t}\n\n\treturn receiver, nil")], rule="R-PURE")
+v("c11-wrong-name-in-message", ["C11"], [("evaluator/str_func.go", "msg := fmt.Sprintf(fail.ErrFuncFirstArgStr, \"trimRight\", object.STR_OBJ)", "msg := fmt.Sprintf(fail.ErrFuncFirstArgStr, \"trim\", object.STR_OBJ)")], rule="R-SIBLING")
+v("c11-arg-kind-ignored", ["C11"], [("evaluator/str_func.go", "\t\tstr, ok := args[0].(*object.Str)\n\n\t\tif !ok {\n\t\t\tmsg := fmt.Sprintf(fail.ErrFuncFirstArgStr, \"split\", object.STR_OBJ)\n\t\t\treturn nil, errors.New(msg)\n\t\t}\n\n\t\tseparator = str.Value", "\t\tif str, ok := args[0].(*object.Str); ok {\n\t\t\tseparator = str.Value\n\t\t}")], expect="violation", rule="R-")
+v("c12-kind-case-deleted", ["C12"], [("object/utils.go", "\tcase uint32:\n\t\treturn &Int{Value: int64(v)}\n", "")], rule="R-KINDS")
+v("c12-map-key-test-removed", ["C12"], [("object/utils.go", "\tif valValue.Type().Key().Kind() != reflect.String {\n\t\treturn nil\n\t}\n\n", "")], rule="R-KINDS")
+v("c12-unexported-fields-exposed", ["C12"], [("object/utils.go", "\t\tif !field.IsExported() {\n\t\t\tcontinue\n\t\t}\n\n", "")], rule="R-")
+
+# ---- C13 / C17 / C18 / C19 / C20
+v("c13-errorline-from-startline", ["C13", "C19"], [("token/token.go", "return t.Pos.EndLine + 1", "return t.Pos.StartLine + 1")], rule="R-")
+v("c13-node-line-of-other-token", ["C13"], [("ast/infix_exp.go", "return ie.Token.ErrorLine()", "return ie.Left.Tok().ErrorLine()")], expect="violation", rule="R-ERRLINE")
+v("c13-parser-error-line-zero", ["C13"], [(P, "\t\tp.newError(p.curToken.ErrorLine(), fail.ErrEmptyBraces)", "\t\tp.newError(0, fail.ErrEmptyBraces)")], rule="R-ERRLINE")
+v("c17-write-before-error-test", ["C17"], [("template.go", "\tif failErr == nil {\n\t\tfmt.Fprint(w, evaluated)\n\t\treturn nil\n\t}", "\tfmt.Fprint(w, evaluated)\n\n\tif failErr == nil {\n\t\treturn nil\n\t}")], rule="R-RESPONSE")
+v("c17-custom-page-in-debug-mode", ["C17"], [("template.go", "if hasErrorPage && !userConfig.DebugMode {", "if hasErrorPage {")], rule="R-RESPONSE")
+v("c17-failure-returns-nil", ["C17"], [("template.go", "\tfmt.Fprint(w, out)\n\n\treturn failErr.Error()", "\tfmt.Fprint(w, out)\n\n\treturn nil")], rule="R-RESPONSE")
+v("c17-debug-flag-constant", ["C17"], [("utils.go", "\"debugMode\": userConfig.DebugMode,", "\"debugMode\": true,")], rule="R-RESPONSE")
+v("c18-template-with-error", ["C18"], [("textwire.go", "\tif parseErr != nil {\n\t\treturn nil, parseErr.Error()\n\t}", "\tif parseErr != nil {\n\t\treturn &Template{programs: programs}, parseErr.Error()\n\t}")], rule="R-PATHAPI")
+v("c18-layouts-registered", ["C18"], [("parser_utils.go", "\t\tif !prog.HasReserveStmt() {\n\t\t\tresult[name] = prog\n\t\t}", "\t\tresult[name] = prog")], rule="R-PATHAPI")
+v("c18-load-error-dropped", ["C18"], [("parser_utils.go", "\t\tif err := applyLayoutToProgram(prog); err != nil {\n\t\t\treturn nil, err\n\t\t}\n", "\t\tapplyLayoutToProgram(prog)\n")], rule="R-ERRDROP")
+v("c19-contains-exclusive-end", ["C19"], [("token/position.go", "if line == p.EndLine && col > p.EndCol {", "if line == p.EndLine && col >= p.EndCol {")], rule="R-ORDERINGS")
+v("c19-start-after-first-read", ["C19"], [(L, "func (l *Lexer) addToken() token.Token {\n\tl.tokenBegins()\n\tl.readChar() // skip \"+\"", "func (l *Lexer) addToken() token.Token {\n\tl.readChar() // skip \"+\"\n\tl.tokenBegins()")], rule="R-TOKPOS")
+v("c19-counter-written-elsewhere", ["C19"], [(L, "func (l *Lexer) skipWhitespace() {\n", "func (l *Lexer) skipWhitespace() {\n\tif l.char == '\\r' {\n\t\tl.col = 0\n\t}\n")], rule="R-TOKPOS")
+v("c19-end-from-current-position", ["C19", "C13"], [(L, "\t\tendCol = l.prevCol\n\t\tendLine = l.prevLine", "\t\tendCol = l.prevCol\n\t\tendLine = l.line")], rule="R-TOKPOS")
+v("c20-duplicate-check-removed", ["C20"], [("textwire.go", "\tif _, ok := customFunc.Int[name]; ok {\n\t\treturn fail.New(0, \"\", \"API\", fail.ErrFuncAlreadyDefined, name, \"integers\").Error()\n\t}\n\n", "")], rule="R-REGISTRY")
+v("c20-custom-before-builtin", ["C20", "C11"], [(E, "\tbuitin, ok := typeFuncs[node.Function.Value]\n\n\tif ok {", "\tbuitin, ok := typeFuncs[node.Function.Value]\n\n\tif ok && !hasCustomFunc(e.ctx.CustomFunc, receiverType, funcName) {")], rule="R-REGISTRY")
+v("c20-registry-cleared-in-configure", ["C20"], [("textwire.go", "func Configure(opt *config.Config) {\n", "func Configure(opt *config.Config) {\n\tcustomFunc = config.NewFunc()\n")], rule="R-REGISTRY")
+v("c20-wrong-table-in-has", ["C20"], [("evaluator/utils.go", "\tcase object.FLOAT_OBJ:\n\t\treturn customFunc.Float[funcName] != nil", "\tcase object.FLOAT_OBJ:\n\t\treturn customFunc.Int[funcName] != nil")], rule="R-REGISTRY")
 
 os.makedirs(os.path.join(HERE, "twcheck", "selftest"), exist_ok=True)
 with open(os.path.join(HERE, "twcheck", "selftest", "variants.json"), "w") as f:
